@@ -8,6 +8,7 @@ import (
 	"encoding/json"
 	"fmt"
 	"io"
+	"net/url"
 	"sort"
 	"strings"
 	"time"
@@ -24,11 +25,13 @@ import (
 // ---------------------------------------------------------------- abstract documents
 
 type ptype struct {
-	Kind  string  `json:"kind"` // prim | ref | obj
+	Kind  string  `json:"kind"` // prim | ref | obj | enum (an inline string enum)
 	Prim  string  `json:"prim,omitempty"`
 	Ref   string  `json:"ref,omitempty"`
 	Obj   *schema `json:"obj,omitempty"`
 	Array bool    `json:"array,omitempty"`
+	// Array2: an array of arrays of the above (Array is then set too)
+	Array2 bool `json:"array2,omitempty"`
 }
 type prop struct {
 	Name     string `json:"name"`
@@ -40,9 +43,13 @@ type prop struct {
 }
 type schema struct {
 	Name  string `json:"name"`
-	Kind  string `json:"kind"` // object | array | enum | prim
+	Kind  string `json:"kind"` // object | array | enum | prim | allof | oneof | alias
 	Props []prop `json:"props,omitempty"`
-	Elem  *ptype `json:"elem,omitempty"` // array element / prim
+	Elem  *ptype `json:"elem,omitempty"` // array element / prim / alias: the definition the $ref names
+	// allof: the parts ($ref to an object-like definition, or an inline object), then the own Props / ReqOrder
+	Parts []ptype `json:"parts,omitempty"`
+	// oneof: the definitions the alternatives refer to
+	Alts []string `json:"alts,omitempty"`
 	// the order in which `required` is written (OpenAPI): a permutation of the required property names
 	ReqOrder []string `json:"req_order,omitempty"`
 	Base     string   `json:"base,omitempty"` // XSD extension base
@@ -272,6 +279,11 @@ func oasType(format string, t ptype) map[string]interface{} {
 		base = map[string]interface{}{"$ref": refPath(format, t.Ref)}
 	case "obj":
 		base = oasSchema(format, *t.Obj)
+	case "enum":
+		base = map[string]interface{}{"type": "string", "enum": []string{"A", "B", "C"}}
+	}
+	if t.Array2 {
+		base = map[string]interface{}{"type": "array", "items": base}
 	}
 	if t.Array {
 		return map[string]interface{}{"type": "array", "items": base}
@@ -297,6 +309,31 @@ func oasSchema(format string, s schema) map[string]interface{} {
 		return map[string]interface{}{"type": "string", "enum": []string{"A", "B", "C"}}
 	case "prim":
 		return oasPrimJSON(s.Elem.Prim)
+	case "allof":
+		var parts []interface{}
+		for _, p := range s.Parts {
+			parts = append(parts, oasType(format, p))
+		}
+		m := map[string]interface{}{"allOf": parts}
+		if len(s.Props) > 0 {
+			props := map[string]interface{}{}
+			for _, p := range s.Props {
+				props[p.Name] = oasType(format, p.T)
+			}
+			m["properties"] = props
+		}
+		if len(s.ReqOrder) > 0 {
+			m["required"] = s.ReqOrder
+		}
+		return m
+	case "oneof":
+		var alts []interface{}
+		for _, a := range s.Alts {
+			alts = append(alts, map[string]interface{}{"$ref": refPath(format, a)})
+		}
+		return map[string]interface{}{"oneOf": alts}
+	case "alias":
+		return map[string]interface{}{"$ref": refPath(format, s.Elem.Ref)}
 	}
 	panic("schema kind " + s.Kind)
 }
@@ -778,6 +815,18 @@ func docNameClasses(d doc) string {
 	for _, s := range d.Schemas {
 		walk(s)
 	}
+	for _, e := range d.Eps {
+		for _, p := range e.Params {
+			if c := paramClass(p); c != "plain" {
+				set["param-"+p.In+"-"+c] = true
+			}
+		}
+		for _, seg := range staticSegments(e.Path) {
+			if c := nameClass(seg); c != "plain" {
+				set["segment-"+c] = true
+			}
+		}
+	}
 	var out []string
 	for k := range set {
 		out = append(out, k)
@@ -787,6 +836,65 @@ func docNameClasses(d doc) string {
 		return "plain-names"
 	}
 	return strings.Join(out, ",")
+}
+
+// paramClass: the class of a parameter name: that of nameClass, a leading digit, plain for everyday header names
+func paramClass(p param) string {
+	c := nameClass(p.Name)
+	if c == "plain" && p.Name != "" && p.Name[0] >= '0' && p.Name[0] <= '9' {
+		return "leading-digit"
+	}
+	if strings.HasPrefix(c, "chars:") && standardHeader(p) {
+		return "plain"
+	}
+	return c
+}
+
+// standardHeader: header names like X-Request-Id are everyday names (the older streams use them), not hostile ones
+func standardHeader(p param) bool {
+	if p.In != "header" {
+		return false
+	}
+	for _, r := range p.Name {
+		if !(r >= 'a' && r <= 'z' || r >= 'A' && r <= 'Z' || r >= '0' && r <= '9' || r == '-' || r == '_') {
+			return false
+		}
+	}
+	return true
+}
+
+// staticSegments: the segments of a path that are not {variables}
+func staticSegments(path string) []string {
+	var out []string
+	for _, seg := range strings.Split(path, "/") {
+		if seg == "" || strings.HasPrefix(seg, "{") {
+			continue
+		}
+		out = append(out, seg)
+	}
+	return out
+}
+
+// sameName: is the compiled name the foreign one - as it is, or escaped the way the importer escapes names?
+func sameName(compiled, want string) bool {
+	if compiled == want {
+		return true
+	}
+	if u, err := url.PathUnescape(compiled); err == nil && u == want {
+		return true
+	}
+	if u, err := url.QueryUnescape(compiled); err == nil && u == want {
+		return true
+	}
+	return false
+}
+
+// classSuffix: ":<class>" for a name that is not plain (finding keys name the feature of the name that matters)
+func classSuffix(n string) string {
+	if c := nameClass(n); c != "plain" {
+		return ":" + c
+	}
+	return ""
 }
 
 func expPrim(format, p string) primExp {
@@ -838,6 +946,10 @@ func (j *judgeCtx) checkField(where string, p prop, f fieldProj, inlineName stri
 	case "obj":
 		if f.Kind != "REF" {
 			j.fail("inline-object:"+fmtn, fmt.Sprintf("%s: inline object, compiled as %s", where, f.Kind))
+		}
+	case "enum":
+		if f.Kind != "STRING" {
+			j.fail("kind:"+fmtn+":inline-enum", fmt.Sprintf("%s: inline string enum, compiled as %s %s", where, f.Kind, f.Ref))
 		}
 	}
 	if p.Key && !f.PK {
@@ -900,11 +1012,20 @@ func (j *judgeCtx) checkObject(app *sysl.Application, s schema, typeKey string, 
 		if f.HasTag && f.JSONTag != p.Name {
 			j.fail("json-tag:"+j.d.Format+":"+nameClass(p.Name), fmt.Sprintf("%s: @json_tag is %q", where, f.JSONTag))
 		}
+		if p.T.Array2 && f.Kind == "REF" {
+			// an array of arrays: the inner array is a type of its own; the element is what that one holds
+			if nt, ok := app.Types[f.Ref]; ok {
+				if g := projField(nt); g.Seq {
+					f.Kind, f.Bits, f.Ref = g.Kind, g.Bits, g.Ref
+				}
+			}
+		}
 		j.checkField(where, p, f, fkey)
+		j.checkDepth(app, where, "property", p.T, ft)
 		if p.T.Kind == "obj" && f.Kind == "REF" {
 			if _, ok := app.Types[f.Ref]; !ok {
 				j.fail("inline-object:"+j.d.Format, fmt.Sprintf("%s: inline object type %q is not defined", where, f.Ref))
-			} else {
+			} else if len(p.T.Obj.Props) > 0 {
 				j.checkObject(app, *p.T.Obj, f.Ref, nil)
 			}
 		}
@@ -926,7 +1047,18 @@ func (j *judgeCtx) checkSchemas(app *sysl.Application) {
 	for _, s := range j.d.Schemas {
 		byName[s.Name] = s
 	}
+	inline := inlineTypeNames(j.d)
+	plainFail := j.fail
+	defer func() { j.fail = plainFail }()
 	for _, s := range j.d.Schemas {
+		j.fail = plainFail
+		if inline[s.Name] {
+			// the definition is named like the type the importer generates for an inline object of another
+			// definition: whatever is wrong with it is that clash
+			j.fail = func(key, what string) {
+				plainFail("shadowed-definition:"+j.d.Format+":named-like-inline-type", fmt.Sprintf("definition %q has the name generated for an inline object: %s", s.Name, what))
+			}
+		}
 		t, key := findType(app, s.Name)
 		if t == nil {
 			var have []string
@@ -937,7 +1069,42 @@ func (j *judgeCtx) checkSchemas(app *sysl.Application) {
 			j.fail("missing-type:"+j.d.Format+":"+nameClass(s.Name)+":"+s.Kind, fmt.Sprintf("schema %q has no type in the compiled model (types: %q)", s.Name, have))
 			continue
 		}
+		if s.Kind == "alias" {
+			// a definition that is a $ref to another one: everything the target says, under this name
+			tgt := j.resolveAlias(s)
+			tgt.Name = s.Name
+			s = tgt
+		}
 		switch s.Kind {
+		case "allof":
+			eff := j.effProps(s, 0)
+			if len(eff) == 0 {
+				continue
+			}
+			j.checkObject(app, schema{Name: s.Name, Kind: "object", Props: eff}, key, nil)
+		case "oneof":
+			u := t.GetOneOf()
+			if u == nil {
+				j.fail("type-shape:"+j.d.Format+":oneof", fmt.Sprintf("schema %q (oneOf of %q) is not a union in the compiled model", s.Name, s.Alts))
+				continue
+			}
+			for _, a := range s.Alts {
+				ok := false
+				for _, m := range u.GetType() {
+					f := projField(m)
+					for _, c := range candidates(a) {
+						if f.Kind == "REF" && f.Ref == c {
+							ok = true
+						}
+					}
+				}
+				if !ok {
+					j.fail("union-member:"+j.d.Format, fmt.Sprintf("schema %q: alternative %q is not a member of the compiled union", s.Name, a))
+				}
+			}
+			if len(u.GetType()) != len(s.Alts) {
+				j.fail("union-member:"+j.d.Format+":extra", fmt.Sprintf("schema %q: %d members for %d alternatives", s.Name, len(u.GetType()), len(s.Alts)))
+			}
 		case "object":
 			if len(s.Props) == 0 {
 				continue // an empty object (or a derived type that adds nothing: an alias of its base) carries nothing to check
@@ -950,9 +1117,25 @@ func (j *judgeCtx) checkSchemas(app *sysl.Application) {
 		case "array":
 			f := projField(t)
 			p := prop{Name: "(items)", T: *s.Elem, Required: true}
+			if s.Elem.Array {
+				p.T.Array2 = true
+			}
 			p.T.Array = true
+			j.checkDepth(app, s.Name+"[]", "definition", p.T, t)
 			if s.Elem.Kind == "obj" {
+				if f.Kind != "REF" || !f.Seq {
+					j.fail("inline-object:"+j.d.Format+":array-items", fmt.Sprintf("schema %q: array of inline objects, compiled as %s seq=%v", s.Name, f.Kind, f.Seq))
+				} else if depthOnly := s.Elem.Array; !depthOnly {
+					if _, ok := app.Types[f.Ref]; !ok {
+						j.fail("inline-object:"+j.d.Format+":array-items", fmt.Sprintf("schema %q: the type %q of the items is not defined", s.Name, f.Ref))
+					} else if len(s.Elem.Obj.Props) > 0 {
+						j.checkObject(app, *s.Elem.Obj, f.Ref, nil)
+					}
+				}
 				continue
+			}
+			if s.Elem.Array {
+				continue // the element is an array itself: the depth check above is what there is to say
 			}
 			j.checkField(s.Name+"[]", p, f, "")
 		case "prim":
@@ -975,16 +1158,30 @@ func (j *judgeCtx) checkEndpoints(app *sysl.Application) {
 		key := e.Method + " " + e.Path
 		ep, ok := app.Endpoints[key]
 		if !ok {
+			// a path with segments that need escaping: the endpoint is named by the escaped path
+			for k, cand := range app.Endpoints {
+				if sameName(k, key) {
+					ep, ok = cand, true
+				}
+			}
+		}
+		if !ok {
 			var have []string
 			for k := range app.Endpoints {
 				have = append(have, k)
 			}
 			sort.Strings(have)
-			j.fail("missing-endpoint:"+j.d.Format, fmt.Sprintf("%s is not an endpoint of the compiled model (endpoints: %q)", key, have))
+			segClass := ""
+			for _, seg := range staticSegments(e.Path) {
+				if c := classSuffix(seg); c != "" {
+					segClass = ":segment" + c
+				}
+			}
+			j.fail("missing-endpoint:"+j.d.Format+segClass, fmt.Sprintf("%s is not an endpoint of the compiled model (endpoints: %q)", key, have))
 			continue
 		}
 		rp := ep.GetRestParams()
-		if rp == nil || rp.GetMethod().String() != e.Method || rp.GetPath() != e.Path {
+		if rp == nil || rp.GetMethod().String() != e.Method || !sameName(rp.GetPath(), e.Path) {
 			j.fail("endpoint-rest:"+j.d.Format, fmt.Sprintf("%s: rest_params are %v", key, rp))
 			continue
 		}
@@ -1007,13 +1204,13 @@ func (j *judgeCtx) checkEndpoints(app *sysl.Application) {
 			switch p.In {
 			case "query":
 				for _, q := range rp.GetQueryParam() {
-					if q.GetName() == p.Name {
+					if sameName(q.GetName(), p.Name) {
 						got = q.GetType()
 					}
 				}
 			case "path":
 				for _, q := range rp.GetUrlParam() {
-					if q.GetName() == p.Name {
+					if sameName(q.GetName(), p.Name) {
 						got = q.GetType()
 					}
 				}
@@ -1036,7 +1233,21 @@ func (j *judgeCtx) checkEndpoints(app *sysl.Application) {
 					j.fail("missing-param:"+j.d.Format+":same-name-other-location", fmt.Sprintf("%s: %s parameter %q is missing: another parameter of the same name in a different location replaced it", key, p.In, p.Name))
 					continue
 				}
-				j.fail("missing-param:"+j.d.Format+":"+p.In, fmt.Sprintf("%s: %s parameter %q is missing", key, p.In, p.Name))
+				hostile := ""
+				if c := paramClass(p); c != "plain" {
+					hostile = ":" + c
+				}
+				var have []string
+				for _, q := range rp.GetQueryParam() {
+					have = append(have, "query "+q.GetName())
+				}
+				for _, q := range rp.GetUrlParam() {
+					have = append(have, "path "+q.GetName())
+				}
+				for _, q := range ep.GetParam() {
+					have = append(have, "param "+q.GetName())
+				}
+				j.fail("missing-param:"+j.d.Format+":"+p.In+hostile, fmt.Sprintf("%s: %s parameter %q is missing (compiled: %q)", key, p.In, p.Name, have))
 				continue
 			}
 			f := projField(got)
@@ -1334,7 +1545,16 @@ func judgeDocLocal(d doc) docObs {
 			j.fail("import-fails:"+d.Format+":circular-ref", "import of a document with a recursive schema fails: "+firstLine(imp.err))
 			return o
 		}
-		j.fail("import-fails:"+d.Format+":"+classes, "import of a well-formed document fails: "+firstLine(imp.err))
+		switch {
+		case strings.Contains(imp.err, "duplicate fields exist"):
+			// SortWithoutDupl: an allOf part and the own properties declare one property differently
+			j.fail("import-fails:"+d.Format+":allof-redeclared-property", "import of a well-formed document fails: "+firstLine(imp.err))
+		case strings.Contains(imp.err, "circular reference detected"):
+			// the generator's references are acyclic
+			j.fail("import-fails:"+d.Format+":false-circular-reference", "import of a document without any circular reference fails: "+firstLine(imp.err))
+		default:
+			j.fail("import-fails:"+d.Format+":"+classes, "import of a well-formed document fails: "+firstLine(imp.err))
+		}
 		return o
 	}
 	comp := compile(imp.text)
@@ -1576,10 +1796,11 @@ type fieldOut struct {
 	fieldProj
 }
 type typeOut struct {
-	Name   string     `json:"n"`
-	Shape  string     `json:"shape"` // tuple | relation | "" (alias: Alias holds the type itself)
-	Fields []fieldOut `json:"fields"`
-	Alias  *fieldProj `json:"alias,omitempty"`
+	Name    string     `json:"n"`
+	Shape   string     `json:"shape"` // tuple | relation | union | "" (alias: Alias holds the type itself)
+	Fields  []fieldOut `json:"fields"`
+	Alias   *fieldProj `json:"alias,omitempty"`
+	Members []string   `json:"members,omitempty"` // union: the referenced types, in order
 }
 
 func projectApp(d doc, app *sysl.Application) json.RawMessage {
@@ -1587,7 +1808,12 @@ func projectApp(d doc, app *sysl.Application) json.RawMessage {
 	for n, t := range app.Types {
 		defs, shape := attrDefs(t)
 		x := typeOut{Name: n, Shape: shape}
-		if defs == nil && shape == "" {
+		if u := t.GetOneOf(); u != nil && defs == nil {
+			x.Shape = "union"
+			for _, m := range u.GetType() {
+				x.Members = append(x.Members, projField(m).Ref)
+			}
+		} else if defs == nil && shape == "" {
 			f := projField(t)
 			x.Alias = &f
 		}
@@ -1768,12 +1994,16 @@ var builtinTypeNames = []string{"no_primitive", "empty", "any", "bool", "int", "
 // flatOAS: is the document inside the subset the Coq model covers (no inline objects)?
 func flatOAS(d doc) bool {
 	for _, s := range d.Schemas {
+		switch s.Kind {
+		case "allof", "oneof", "alias":
+			return false
+		}
 		for _, p := range s.Props {
-			if p.T.Kind == "obj" {
+			if p.T.Kind == "obj" || p.T.Kind == "enum" || p.T.Array2 {
 				return false
 			}
 		}
-		if s.Elem != nil && s.Elem.Kind == "obj" {
+		if s.Elem != nil && (s.Elem.Kind == "obj" || s.Elem.Kind == "enum" || s.Elem.Array && s.Kind == "array") {
 			return false
 		}
 	}
@@ -1851,6 +2081,9 @@ func gProj(raw json.RawMessage) (string, bool) {
 	}
 	var out []string
 	for _, t := range ts {
+		if t.Shape == "union" {
+			return "", false // not in the Coq model
+		}
 		if t.Alias != nil {
 			out = append(out, fmt.Sprintf("(%s, TAlias (%s))", gb(t.Name), gField(*t.Alias)))
 			continue
